@@ -16,7 +16,7 @@ from . import c01
 PID = "C02"
 
 BASE_CFG = {"engines": ("pandas", "pg"), "max_nodes": 7, "n_tables": (1, 2), "final_order": 0.3,
-            "shape": "diamond", "shape_prob": 0.4, "reuse_bias": True}
+            "shape": "diamond", "shape_prob": 0.4, "reuse_bias": True, "narrowing_tails": True}
 
 
 def fmt_options(cte: bool):
